@@ -1224,8 +1224,13 @@ fn execute_match(cx: &Ctx, ask_id: &str, bid_id: &str, price: &str, size: u128) 
         if fee_alts.is_empty() {
             return dont("state_inconsistent_fee");
         }
-        if fee_alts.iter().any(|(bf, _)| *bf > 0) && cfg.bid_fee.is_none() {
-            return dont("bid_fee_account_missing");
+        if cfg.bid_fee.is_none() {
+            // the fill's fee is owed to the bid-fee account, and there is none: only fee-free
+            // alternatives can be settled as C02 words it
+            fee_alts.retain(|(bf, _)| *bf == 0);
+            if fee_alts.is_empty() {
+                return refuse("bid_fee_unpayable");
+            }
         }
     } else {
         fee_alts.push((0, 0));
@@ -1588,8 +1593,11 @@ pub fn expect_instantiate(msg: &Value) -> InstExpect {
 #[derive(Clone, Copy, Debug, PartialEq)]
 pub enum VersionClass {
     Triple(u64, u64, u64),
-    /// pre-release or build metadata: the matching rule is not what C14 is about
+    /// build metadata, or a pre-release of a version above the minimum: whether that counts as
+    /// "supported" is not what C14 is about
     PreOrBuild,
+    /// pre-release of (a version not above) the minimum: older than the minimum by precedence
+    PreReleaseBelowMin,
     Malformed,
 }
 
@@ -1614,6 +1622,9 @@ pub fn version_class(s: &str) -> VersionClass {
         }
     }
     if core_end < s.len() {
+        if s.as_bytes()[core_end] == b'-' && (n[0], n[1], n[2]) <= (0, 16, 2) && core_end + 1 < s.len() {
+            return VersionClass::PreReleaseBelowMin;
+        }
         return VersionClass::PreOrBuild;
     }
     VersionClass::Triple(n[0], n[1], n[2])
@@ -1654,6 +1665,7 @@ pub fn expect_migrate(stored_version: Option<&str>, msg: &Value, cfg: &Cfg) -> M
     let (a, b, c) = match v {
         VersionClass::Malformed => return MigExpect::Refuse("version_unreadable"),
         VersionClass::PreOrBuild => return MigExpect::DontCare("prerelease_version"),
+        VersionClass::PreReleaseBelowMin => return MigExpect::Refuse("prerelease_below_minimum"),
         VersionClass::Triple(a, b, c) => (a, b, c),
     };
     if (a, b, c) < (0, 16, 2) {
